@@ -674,7 +674,7 @@ def postcond_case(draw, tier="quick"):
         dims = draw(st.one_of(
             st.none(), st.sampled_from([0, -1, nd - 1, -nd]),
             st.lists(st.integers(-nd, nd - 1), min_size=1, max_size=nd).map(list)))
-        hook = {"kind": "norm", "order": draw(st.sampled_from([0.5, 1, 2, 3, "inf", 1.5, 2.0, 1.0])),
+        hook = {"kind": "norm", "order": draw(st.sampled_from([0.5, 1, 2, 3, "inf", 1.5, 2.0, 1.0, 4, 6])),
                 "scale": draw(st.sampled_from([1.0, -1.0, 2.0, 0.5, -3.0, 1, 10.0, 0.01])), "dims": dims,
                 "scalar_dim": draw(_b), **flags}
         vals = st.sampled_from(VALS)
